@@ -75,7 +75,7 @@ func runUnpack(c *cctx) {
 	reg.SelectVersions()
 
 	// canaries inside the storage dir but outside the extraction dir
-	can := canaryRecord(c.sb.Token)
+	can := canaryRecord(c.sb.CTok)
 	inStorage := []string{
 		filepath.Join(storage, "pkg", "other_v1-0-0.zip"),
 		filepath.Join(storage, "keep", "rec1"),
@@ -98,6 +98,9 @@ func runUnpack(c *cctx) {
 	g := &nameGen{Root: extract, Targets: targets, Inside: []string{"d1", "d1/d2", "f1"}, Suffix: []string{"x", "-other"}}
 
 	names := c.names(g)
+	if len(c.sp.Entries) > 0 {
+		names = [][2]string{{"(replayed entry list)", "replay"}}
+	}
 	for pos := 0; pos < len(names); {
 		ch := c.choice(names[pos][0])
 		k := ch.Range(1, 3)
@@ -148,6 +151,10 @@ func runUnpack(c *cctx) {
 				at = len(ents)
 			}
 			ents = append(ents[:at:at], append(add, ents[at:]...)...)
+		}
+
+		if len(c.sp.Entries) > 0 {
+			ents, allPlain = c.sp.Entries, false
 		}
 
 		// oracle's view: resolve every entry against the extraction dir, simulate
@@ -202,7 +209,6 @@ func runUnpack(c *cctx) {
 		_ = os.RemoveAll(dest)
 		_ = os.RemoveAll(extract)
 		ni.Extra = ents
-		c.sb.last = c.sb.snap() // the harness itself only touched excluded paths; keep the chain exact
 
 		res := c.do(ni, "UnpackArchive", func() (error, [][]byte) { return reg.UnpackResources(), nil })
 		c.b.Count("zip_entries", int64(len(ents)))
